@@ -285,6 +285,11 @@ Definition from_raw (n : nat) (ws : list N) : option bits :=
 (* into_raw (after fix F3: every owned sequence starts at bit 0): the live region of the image *)
 Definition into_raw_live (s : bits) : bits := s.
 
+(* ---------------- translation (translation/standard.rs) ---------------- *)
+(* Standard::to_amino: assert len == 3 ; Amino::unsafe_from_bits(u8::from(codon)) *)
+Definition to_amino (amino : codec) (c : bits) : res N :=
+  do _ <- assert (slen c =? 3); do v <- to_u8 c; un_bits amino v.
+
 (* ---------------- conversions between codecs: iter().map(Into::into).collect() ---------------- *)
 Definition convert (f : N -> res N) (B' : nat) (s : bits) : res bits :=
   do xs <- iter s; do ys <- mapM f xs; ret (concat (map (to_bits B') ys)).
